@@ -14,6 +14,10 @@ Theorem c12_sites_ok : c12_bad_sites = [].
 Proof. vm_compute. reflexivity. Qed.
 Print Assumptions c12_sites_ok.
 
+(* the sender token: writeOnce is entered only where CompareAndSwap(running, idle, running) has just succeeded *)
+Theorem c12_token_calls_ok : c12_bad_calls = [].
+Proof. vm_compute. reflexivity. Qed.
+
 Theorem c12_race_free : forall c x, wf_c c -> follows the_policy sites c -> owner_discipline the_policy sites c ->
   p_prot the_policy (snd x) <> POut -> ~ race_on c x.
 Proof. exact c12_race_free_sites. Qed.
